@@ -699,6 +699,9 @@ func c06OtherConnections(c *Ctx, r *Rand, idx int) {
 		m.Bind(func(w *gldap.ResponseWriter, req *gldap.Request) {
 			w.Write(req.NewBindResponse(gldap.WithResponseCode(0)))
 		})
+		m.ExtendedOperation(func(w *gldap.ResponseWriter, req *gldap.Request) {
+			w.Write(req.NewExtendedResponse(gldap.WithResponseCode(gldap.ResultUnwillingToPerform)))
+		}, gldap.ExtendedOperationStartTLS)
 	})
 	if err != nil {
 		c.Inconclusive("server start: " + err.Error())
@@ -745,7 +748,7 @@ func c06OtherConnections(c *Ctx, r *Rand, idx int) {
 		a.Close()
 		return
 	}
-	ending := pick(r, []string{"fin", "reset", "unbind", "malformed", "stays"})
+	ending := pick(r, []string{"fin", "reset", "unbind", "malformed", "stays", "starttls-queued", "starttls-queued"})
 	switch ending {
 	case "fin":
 		a.Close()
@@ -755,6 +758,10 @@ func c06OtherConnections(c *Ctx, r *Rand, idx int) {
 		a.Send(sber.Message(3, sber.UnbindRequest(), nil).Encode())
 	case "malformed":
 		a.Send([]byte{0x30, 0x03, 0x02, 0x01, 0x01, 0xff})
+	case "starttls-queued":
+		// the connection with the blocked handler goes on to ask for StartTLS (served on its own read loop, whatever
+		// that has to wait for): still nobody else's problem
+		a.Send(sber.Message(3, sber.ExtendedRequest([]byte(sber.OIDStartTLS), nil, false), nil).Encode())
 	}
 	time.Sleep(time.Duration(1+r.Intn(20)) * time.Millisecond)
 	det := map[string]any{"ending_of_the_connection_with_the_blocked_handler": ending}
@@ -789,7 +796,7 @@ func c06OtherConnections(c *Ctx, r *Rand, idx int) {
 	c.Distinct("pipeline_shapes", "other-connections/"+ending)
 	close(gate)
 	released = true
-	if ending != "stays" {
+	if ending != "stays" && ending != "starttls-queued" {
 		a.Close()
 	} else {
 		a.ReadMsg(patience)
